@@ -1,6 +1,7 @@
 """C19 -- what is drawn is the object (DR1, DR2, DR3, U1)."""
 from ..rules import draw_rules as D
 from ..rules import sibling_rules as SI
+from ..rules import cache_rules as CA
 from ..rules.common import u1
 
 DR = D.DRAW
@@ -32,6 +33,7 @@ def run(ctx):
     ctx.do(D.rule_dr3)
     ctx.do(D.rule_dr4)
     ctx.do(SI.rule_k4)
+    ctx.do(CA.rule_der1, DR, "Drawing")
     ctx.do(u1, ENTRIES, min_functions=30)
     ctx.r.assume("that the path visits the vertices along geodesics (arc "
                  "reversal heuristic, radius threshold) needs values and is "
